@@ -1889,6 +1889,11 @@ pub fn run(tier: &str) -> i32 {
     rep.assume("queries whose WHERE clause does not confine the timestamp to a finite window (one-sided bounds, no bound: the documented last-hour default) are outside the property and are not generated; the generator's own interval analysis decides membership");
     rep.assume("all timestamps are non-negative and within a few days of the frozen clock; Timestamp columns are Timestamp(Nanosecond, UTC)");
 
+    if std::env::var("VERIF_ONLY").as_deref() == Ok("label-sets") {
+        println!("note: VERIF_ONLY=label-sets: partial run");
+        super::c04_labels::label_space(&mut rep, tier);
+        return rep.finish();
+    }
     let cases = plan(tier);
     let total_q: usize = cases.iter().map(|c| (c.to - c.from) * if c.mode == Mode::Twice { 2 } else { 1 }).sum();
     let budget = if tier == "thorough" { 24 * 60 } else { 50 };
@@ -1970,10 +1975,14 @@ pub fn run(tier: &str) -> i32 {
     for (sig, (_, msg, replay, n)) in fails {
         rep.violation_n(&sig, &msg, replay, n);
     }
+    super::c04_labels::label_space(&mut rep, tier);
     rep.finish()
 }
 
 pub fn replay(v: &Value) -> i32 {
+    if v["kind"] == "label-set-case" {
+        return super::c04_labels::replay_case(v);
+    }
     let layout: Layout = match serde_json::from_value(v["layout"].clone()) {
         Ok(l) => l,
         Err(e) => {
